@@ -361,6 +361,79 @@ static rc::Gen<Case> gen_ctr(int tier) {
   });
 }
 
+// ---------------------------------------------------------------- sub "giant": ONE update call too long for 32 bits (or for 32 bits of BITS)
+// Case: giant kind(0 sha, 1 crc) lenclass k align prefix.  The message is an untouched read-only anonymous mapping (zeros), fed as `prefix` bytes
+// and then one call of 2^29 + k (sha, lenclass 0), 2^32 + k (sha lenclass 1, crc) bytes; one variant per distinct path is run against the
+// portable build.
+#include <sys/mman.h>
+static rc::Gen<Case> gen_giant(int tier) {
+  return rc::gen::noShrink(rc::gen::exec([tier]() {
+    Case c;
+    int kind = 2;
+    c.push_back(Op("giant", {kind, tier ? *range<int>(0, 1) : 0, *rc::gen::weightedOneOf<int64_t>({{2, range<int64_t>(0, 70)}, {1, range<int64_t>(71, 1 << 20)}}), *range<int>(0, 15),
+                             *rc::gen::elementOf(std::vector<int64_t>{0, 0, 64, 64, 1, 55, 63, 65, 128})}));
+    return c;
+  }));
+}
+static Outcome run_giant1(const std::vector<int64_t> &a);
+static Outcome run_giant(const Case &c) {
+  Outcome o;
+  if (c.empty() || c[0].a.size() < 5) return o;
+  if (c[0].a[0] != 2) return run_giant1(c[0].a);
+  // 2: SHA-256 with the generated prefix, SHA-256 starting on a block boundary (prefix 0, 64 or 128), and CRC32C
+  for (int round = 0; round < 3 && o.ok; round++) {
+    std::vector<int64_t> a = c[0].a;
+    a[0] = round == 2;
+    if (round == 1) a[4] = 64 * (a[2] % 3);
+    if (round == 2) a[1] = 1;
+    Outcome r = run_giant1(a);
+    for (auto &cl : r.classes) o.cls(cl);
+    o.nontrivial = o.nontrivial || r.nontrivial;
+    if (!r.ok) return r;
+  }
+  return o;
+}
+static Outcome run_giant1(const std::vector<int64_t> &a) {
+  Outcome o;
+  int kind = (int)(a[0] & 1);
+  size_t big = ((size_t)1 << ((kind == 1 || (a[1] & 1)) ? 32 : 29)) + (size_t)std::max<int64_t>(0, std::min<int64_t>(a[2], 1 << 20));
+  size_t align = (size_t)(a[3] & 15), prefix = (size_t)std::max<int64_t>(0, std::min<int64_t>(a[4], 200));
+  size_t total = align + prefix + big;
+  uint8_t *map = (uint8_t *)mmap(nullptr, total, PROT_READ, MAP_PRIVATE | MAP_ANONYMOUS | MAP_NORESERVE, -1, 0);
+  if (map == MAP_FAILED) {
+    fprintf(stderr, "HARNESS-ERROR: cannot map %zu bytes\n", total);
+    exit(3);
+  }
+  std::vector<size_t> cuts;
+  if (prefix) cuts.push_back(prefix);
+  cuts.push_back(big);
+  std::set<int> seen;
+  uint8_t ref[32] = {0};
+  size_t olen = kind == 0 ? 32 : 4;
+  int mask = kind == 0 ? 3 : 4;
+  if (kind == 0) VS[REF].sha256(map + align, cuts.data(), cuts.size(), ref);
+  else VS[REF].crc(map + align, cuts.data(), cuts.size(), ref);
+  seen.insert(VS[REF].p & mask);
+  for (size_t i = 0; i < VS.size() && o.ok; i++) {
+    if (seen.count(VS[i].p & mask)) continue;  // one variant per path
+    seen.insert(VS[i].p & mask);
+    uint8_t out[32] = {0};
+    if (kind == 0) VS[i].sha256(map + align, cuts.data(), cuts.size(), out);
+    else VS[i].crc(map + align, cuts.data(), cuts.size(), out);
+    if (memcmp(ref, out, olen) != 0) {
+      char m[400];
+      snprintf(m, sizeof m, "%s of %zu zero bytes fed as %zu + ONE call of %zu differs between variant %s (path %s) and the portable build (buffer offset %zu)", kind == 0 ? "SHA-256" : "CRC32C",
+               prefix + big, prefix, big, VS[i].name.c_str(), pathname(VS[i].p, kind).c_str(), align);
+      o.fail(std::string(kind == 0 ? "sha256-path-" : "crc32c-path-") + pathname(VS[i].p, kind), m);
+    }
+  }
+  munmap(map, total);
+  o.cls(kind == 0 ? (big >> 32 ? "sha: one call >= 2^32 bytes" : "sha: one call >= 2^29 bytes (2^32 bits)") : "crc: one call >= 2^32 bytes");
+  o.cls(prefix % 64 == 0 ? "giant call starts on a block boundary" : "giant call starts inside a block");
+  o.nontrivial = seen.size() >= 2;
+  return o;
+}
+
 int main(int argc, char **argv) {
   bool listing = false;
   for (int i = 1; i < argc; i++)
@@ -382,5 +455,8 @@ int main(int argc, char **argv) {
                                         "16, 17..64 bytes mixed (both sides of the 16-byte threshold), in place or separate buffers, alignments 0..15.") +
                                 G + " Non-trivial: >=2 paths ran and the stream has calls on each side of the threshold",
                   gen_ctr, run_one});
+  subs.push_back({"giant", std::string("ONE update call of 2^29+k bytes (SHA-256: 2^32 bits; thorough also 2^32+k bytes) or 2^32+k bytes (CRC32C), k in 0..2^20, after 0/1/55/63/64/65/128 ordinary bytes, buffer offset "
+                                       "0..15; zeros from an untouched mapping; one variant per distinct path against the all-portable build. Non-trivial: >=2 paths ran"),
+                  gen_giant, run_giant});
   return pbt_main(argc, argv, subs);
 }
